@@ -910,7 +910,8 @@ structure ResEff (s s' : S) (j : JobId) : Prop where
   ef : ∀ i, (s'.jobs i).evalFailed = (s.jobs i).evalFailed
   par : ∀ i, (s'.jobs i).parent = (s.jobs i).parent
   tw : ∀ i, (s'.jobs i).twins = (s.jobs i).twins
-  queue : s'.queue = s.queue ∨ ∃ par, s'.queue = s.queue ++ [Ev.resolve par]
+  queue : s'.queue = s.queue ∨ ∃ par, (s.jobs j).parent = some par ∧ (s.jobs par).evalFailed = false ∧
+    (s.jobs par).waiting - 1 = 0 ∧ s'.queue = s.queue ++ [Ev.resolve par]
   qres : ∀ par, (s.jobs j).parent = some par → (s.jobs par).evalFailed = false → (s.jobs par).waiting - 1 = 0 →
     Ev.resolve par ∈ s'.queue
   fin : ((s.jobs j).parent = none → s'.finished = true) ∧ (s.finished = true → s'.finished = true)
@@ -955,7 +956,10 @@ theorem resEff (s : S) (j : JobId) :
       intro i; rw [← hs2]; simp only [setJob]; split <;> split <;> rfl
     split
     · rename_i hc
-      refine ⟨g1, g2, g3, g4, g5, hst, hwt, hef, hpar, htw, Or.inr ⟨par, by simp [enqueue, g6]⟩, ?_,
+      have hc' := hc
+      rw [hwt, hef, hp] at hc'
+      simp only [if_true, Bool.and_eq_true, decide_eq_true_eq, Bool.not_eq_true'] at hc'
+      refine ⟨g1, g2, g3, g4, g5, hst, hwt, hef, hpar, htw, Or.inr ⟨par, rfl, hc'.2, hc'.1, by simp [enqueue, g6]⟩, ?_,
         ⟨fun h => by rw [hp] at h; simp at h, fun h => by show s2.finished = true; rw [g7]; exact h⟩⟩
       intro par' h _ _
       rw [hp] at h; simp at h; subst h; simp [enqueue]
@@ -977,10 +981,10 @@ theorem EW_append_resolve (s s' : S) (hpl : s'.pendingLimits = s.pendingLimits)
 
 theorem ResEff.live {p : Prog} {s s' : S} {j : JobId} (h : ResEff s s' j) (hl : Live p s (some j) none)
     (hew : EW s j = 0) : Live p s' (some j) (some j) := by
-  have hEW := EW_append_resolve s s' h.pl h.queue
+  have hEW := EW_append_resolve s s' h.pl (h.queue.imp id (fun ⟨par, _, _, _, q⟩ => ⟨par, q⟩))
   have hmem : ∀ e, e ∈ s.queue → e ∈ s'.queue := by
     intro e he
-    rcases h.queue with q | ⟨par, q⟩
+    rcases h.queue with q | ⟨par, _, _, _, q⟩
     · rw [q]; exact he
     · rw [q]; exact List.mem_append_left _ he
   have hQ : ∀ i, Q s i → Q s' i := by
@@ -1085,7 +1089,8 @@ structure RejEff (s s' : S) (u : JobId) : Prop where
   ef : ∀ i, (s'.jobs i).evalFailed = if (s.jobs u).parent = some i then true else (s.jobs i).evalFailed
   par : ∀ i, (s'.jobs i).parent = (s.jobs i).parent
   tw : ∀ i, (s'.jobs i).twins = (s.jobs i).twins
-  queue : s'.queue = s.queue ∨ ∃ par, s'.queue = s.queue ++ [Ev.reject par]
+  queue : s'.queue = s.queue ∨ ∃ par, (s.jobs u).parent = some par ∧ (s.jobs par).evalFailed = false ∧
+    s'.queue = s.queue ++ [Ev.reject par]
   qrej : ∀ par, (s.jobs u).parent = some par → (s.jobs par).evalFailed = false → Ev.reject par ∈ s'.queue
   fin : ((s.jobs u).parent = none → s'.finished = true) ∧ (s.finished = true → s'.finished = true)
 
@@ -1127,7 +1132,7 @@ theorem rejEff (s : S) (u : JobId) :
       · intro i; simp only [setJob]; split <;> rfl
       · intro par' h h1; rw [hp] at h; simp at h; subst h; rw [hc] at h1; simp at h1
     · rename_i hc
-      refine ⟨rfl, rfl, rfl, rfl, rfl, ?_, ?_, ?_, ?_, ?_, Or.inr ⟨par, rfl⟩, ?_,
+      refine ⟨rfl, rfl, rfl, rfl, rfl, ?_, ?_, ?_, ?_, ?_, Or.inr ⟨par, rfl, by simpa using hc, rfl⟩, ?_,
         ⟨fun h => by rw [hp] at h; simp at h, fun h => h⟩⟩
       · intro i; simp only [enqueue, setJob]; split <;> split <;> simp_all
       · intro i; simp only [enqueue, setJob]; split <;> split <;> rfl
@@ -1166,10 +1171,10 @@ theorem live_open {p : Prog} {s : S} {x : Option JobId} (j : JobId) (hl : Live p
 
 theorem RejEff.live {p : Prog} {s s' : S} {j u : JobId} (h : RejEff s s' u) (hl : Live p s (some j) (some j))
     (hu : u = j ∨ Tw s u) (hew : EW s u = 0) : Live p s' (some j) (some j) := by
-  have hEW := EW_append_reject s s' h.pl h.queue
+  have hEW := EW_append_reject s s' h.pl (h.queue.imp id (fun ⟨par, _, _, q⟩ => ⟨par, q⟩))
   have hmem : ∀ e, e ∈ s.queue → e ∈ s'.queue := by
     intro e he
-    rcases h.queue with q | ⟨par, q⟩
+    rcases h.queue with q | ⟨par, _, _, q⟩
     · rw [q]; exact he
     · rw [q]; exact List.mem_append_left _ he
   have hQ : ∀ i, Q s i → Q s' i := by
